@@ -232,7 +232,7 @@ def _c11() -> SimEngine:
         "C11",
         "1..3 pools of either class (named and unnamed) in one loop, interleaved spawners, endings, flushes, cancellations. Non-trivial: "
         ">= 2 pools created tasks and a flush returned. Distinct = program hash.",
-        [("default", prof, 1.0)],
+        [("default", prof, 0.8), ("many-tasks", dict(prof, max_num=14, max_elems=14, max_steps=40, sizes=[3, None, None], p_cb=0.2), 0.2)],
         lambda case, l: "ids:pool-with-tasks-0" in l and "ids:pool-with-tasks-1" in l and "flush:returned" in l,
         n_quick=4000, n_thorough=200000, floors={"ids:pool-with-tasks-1": 0.3, "new-pool-after-a-close": 0.05})
 
@@ -273,7 +273,7 @@ def _c14() -> SimEngine:
         "C14",
         "SimpleTaskPool histories of start/stop/stop_all/cancel/finish that leave gaps among the running ids; n in -3..R+3. Non-trivial: "
         "stop(n) with 0 < n < R, R >= 3 running and a gap in their ids. Distinct = program hash.",
-        [("default", prof, 1.0)],
+        [("default", prof, 0.8), ("many-tasks", dict(prof, max_num=14, max_steps=40, sizes=[None, None, 12]), 0.2)],
         lambda case, l: "stop:lifo-with-gaps" in l,
         n_quick=4000, n_thorough=200000, floors={"stop:lifo-with-gaps": 0.05, "stop:nonpositive": 0.05})
 
